@@ -53,7 +53,9 @@ class SymCoords:
             self.left = self.left * scale
             self.right = self.right * scale
             self.mut_pos = self.mut_pos * scale
+            self.sites = self.sites * scale
             self.L = self.L * scale
+            self.map = {k: (v * scale) for k, v in self.map.items()}
 
     def _arr(self, a):
         out = np.empty(len(a), dtype=object)
@@ -69,3 +71,113 @@ class SymCoords:
         for t in self.ts.trees():
             out.append((self.map[t.interval[0]], self.map[t.interval[1]], t.copy()))
         return out
+
+
+class _SymEdge:
+    def __init__(self, e, sc):
+        self._e, self._sc = e, sc
+
+    def __getattr__(self, k):
+        return getattr(self._e, k)
+
+    @property
+    def left(self):
+        return self._sc.sym_of(self._e.left)
+
+    @property
+    def right(self):
+        return self._sc.sym_of(self._e.right)
+
+    @property
+    def span(self):
+        return self.right - self.left
+
+
+class _SymTree:
+    def __init__(self, t, sc):
+        self._t, self._sc = t, sc
+
+    def __getattr__(self, k):
+        return getattr(self._t, k)
+
+    @property
+    def interval(self):
+        l, r = self._t.interval
+        return (self._sc.sym_of(l), self._sc.sym_of(r))
+
+    @property
+    def span(self):
+        l, r = self.interval
+        return r - l
+
+
+class _SymSite:
+    def __init__(self, s, sc):
+        self._s, self._sc = s, sc
+
+    def __getattr__(self, k):
+        return getattr(self._s, k)
+
+    @property
+    def position(self):
+        return self._sc.sites[self._s.id]
+
+
+class SymTS:
+    """A real tskit tree sequence whose genome coordinates (edge endpoints, site positions,
+    sequence length, tree intervals) are replaced by the symbols of a SymCoords; everything
+    else is forwarded to the real object."""
+
+    def __init__(self, ts, sc):
+        self._ts, self._sc = ts, sc
+
+    def __getattr__(self, k):
+        return getattr(self._ts, k)
+
+    @property
+    def edges_left(self):
+        return self._sc.left
+
+    @property
+    def edges_right(self):
+        return self._sc.right
+
+    @property
+    def sites_position(self):
+        return self._sc.sites
+
+    @property
+    def sequence_length(self):
+        return self._sc.L
+
+    def get_sequence_length(self):
+        return self._sc.L
+
+    def edges(self):
+        for e in self._ts.edges():
+            yield _SymEdge(e, self._sc)
+
+    def edge(self, i):
+        return _SymEdge(self._ts.edge(i), self._sc)
+
+    def trees(self, **kw):
+        for t in self._ts.trees(**kw):
+            yield _SymTree(t, self._sc)
+
+    def first(self, **kw):
+        return _SymTree(self._ts.first(**kw), self._sc)
+
+    def sites(self):
+        for s in self._ts.sites():
+            yield _SymSite(s, self._sc)
+
+    def site(self, i):
+        return _SymSite(self._ts.site(i), self._sc)
+
+    def breakpoints(self, as_array=False):
+        pts = [self._sc.sym_of(p) for p in self._ts.breakpoints()]
+        if as_array:
+            out = np.empty(len(pts), dtype=object)
+            out[:] = pts
+            return out
+        return iter(pts)
